@@ -322,7 +322,7 @@ def make_churn_script(rng, name, table=False, length=None):
     return f"=== {name} plan={plan} live={live}\n" + "\n".join(lines) + "\n"
 
 
-def make_run_script(rng, name, kind=None):
+def make_run_script(rng, name, kind=None, switch_rule=None):
     """Collision runs: n keys sharing a probe start (n from below one group to several groups),
     removals INSIDE the run (tombstones in groups without an EMPTY byte), then every lookup /
     insert / entry / remove API on keys stored BEYOND the tombstone and on absent keys; optionally
@@ -332,6 +332,8 @@ def make_run_script(rng, name, kind=None):
     # 7, 14, 28, 56 fill a table exactly (growth_left = 0): removals then leave tombstones only, and
     # the next insertion of a new key rehashes in place when at most half the capacity is live
     n = rng.choice([9, 14, 14, 15, 16, 17, 18, 24, 28, 28, 28, 31, 33, 40, 56, 56, 57])
+    if switch_rule and rng.random() < 0.7:
+        n = rng.choice([14, 28, 28, 56])
     g = Gen(rng, n + 6, plan, kind)
     g.resync = False
     g.many = False
@@ -340,8 +342,15 @@ def make_run_script(rng, name, kind=None):
     for k in range(n):
         g.op_insert(k)
     victims = rng.sample(range(n), rng.choice([1, 1, 2, 3, max(1, n // 3), n // 2 + 1, n // 2 + 1, max(1, n - 2), max(1, n - 5)]))
+    if switch_rule and n in (14, 28, 56) and rng.random() < 0.8:
+        victims = rng.sample(range(n), rng.randrange(n // 2 + 1, n - 1))
     for k in victims:
         g.op_remove(k)
+    if switch_rule:
+        # the table was built lawfully (exact capacity, tombstones); from here on Hash / Eq misbehave:
+        # the next insertion re-hashes every element in place with answers it has never given before
+        for l in switch_rule.split(";"):
+            g.emit(l)
     def probes():
         keys = list(range(n + 4))
         rng.shuffle(keys)
